@@ -6,7 +6,7 @@
    proto.Unmarshal + WALFromProto on the payload.  The decoder is the one with the F8 repair
    (last argument [true] of decode1/decode_all). *)
 From Coq Require Import List ZArith NArith Bool Lia.
-From TM Require Import Common.Hex Generated.Consts C15.Crc32c C15.Model C15.Proofs C15.ProofsSearch.
+From TM Require Import Common.Hex Generated.Consts C15.Crc32c C15.Model C15.ModelSync C15.Proofs C15.ProofsSearch C15.ProofsSync.
 Import ListNotations.
 Open Scope Z_scope.
 
@@ -575,3 +575,98 @@ Example C15_restart_reaches_repair_any_nonvacuous :
   head (fst (restart crc32c_be vtrue ex_eh true s 5 2 true (ex_mk 0) (ex_mk 0))) =
     frames crc32c_be [ex_r1].
 Proof. vm_compute. repeat split; reflexivity. Qed.
+
+(* ================================================================== start on a synced state
+   (finding F88; coq/C15/ModelSync.v, ProofsSync.v).  Only finalizeCommit writes #ENDHEIGHT h, so
+   a node whose blocks up to H came from block sync / state sync started height H+1 on a WAL
+   without #ENDHEIGHT H and the next restart could not replay the records of H+1.  After the
+   repair State.OnStart with doWALCatchup = false runs markSyncedHeight(H) = [mark_synced true]:
+   unless the search finds #ENDHEIGHT H it is written with WriteSync before the first record of
+   the new height. *)
+
+(* the marker is appended to the journal and synced; the journal invariant and Idx hold again *)
+Theorem C15_mark_synced_appends :
+  forall (crc : bytes -> bytes) (valid : bytes -> bool) (eh_of : bytes -> option Z),
+  (forall d, length (crc d) = 4%nat) ->
+  forall (s : st) (fs : list (list bytes)) (hr : list bytes) (H : Z) (dH : bytes),
+    SInv crc valid s fs hr [] -> buf s = [] -> synced s = len (head s) -> Idx s ->
+    okrec valid dH -> 1 <= H -> ~ In H (markers eh_of (concat fs ++ hr)) ->
+    exists fs', Inv crc valid (mark_synced crc valid eh_of true true s H dH) fs' (hr ++ [dH]) [] /\
+      concat fs' = concat fs /\ Idx (mark_synced crc valid eh_of true true s H dH).
+Proof. exact mark_synced_spec. Qed.
+Print Assumptions C15_mark_synced_appends.
+
+(* Last clause of the property, WAL side, for the first height after a sync.  The node is
+   started on a synced state at height H on ANY log J = concat fs ++ hr that has no #ENDHEIGHT H
+   and whose non-zero markers lie below H (a fresh WAL, or the WAL of an earlier life), writes
+   ANY records of height H+1 with Write / WriteSync / FlushAndSync (none of them a marker: the
+   crash happens inside the height), crashes at ANY byte offset of the unsynced tail and
+   restarts with catch-up at height H+1 (Model.restart = the OnStart loop): the start-up ends
+   with status 0 (after exactly one repair when the crash tore a record) and the replay is
+   handed exactly the synced records of height H+1 ([sy]) followed by the unsynced ones that
+   survived ([kept], a prefix of [un]) — or the checksum collides.
+   [wop]: DWrite d / DWriteSync d with okrec d and eh_of d = None, DFlush.
+   [jrun [] [] ops] = (synced, unsynced) records written by ops. *)
+Theorem C15_replay_after_sync :
+  forall (crc : bytes -> bytes) (valid : bytes -> bool) (eh_of : bytes -> option Z),
+  (forall d, length (crc d) = 4%nat) -> valid [] = false ->
+  forall (s : st) (fs : list (list bytes)) (hr : list bytes) (H : Z) (dH : bytes)
+         (ops : list dop) (keep : Z) (d0a d0b : bytes),
+    SInv crc valid s fs hr [] -> buf s = [] -> synced s = len (head s) -> Idx s ->
+    okrec valid dH -> eh_of dH = Some H -> 1 <= H ->
+    MonoNZ eh_of ((concat fs ++ hr) ++ [dH]) -> ~ In H (markers eh_of (concat fs ++ hr)) ->
+    Forall (wop valid eh_of) ops ->
+    let s2 := fold_left (dstep crc valid) ops (mark_synced crc valid eh_of true true s H dH) in
+    let sy := fst (jrun [] [] ops) in
+    let un := snd (jrun [] [] ops) in
+    (exists rep kept lost s', un = kept ++ lost /\
+       restart crc valid eh_of true s2 keep (H + 1) true d0a d0b = (s', (0%N, rep, sy ++ kept)))
+    \/ CrcCollision crc.
+Proof. exact replay_after_sync. Qed.
+Print Assumptions C15_replay_after_sync.
+
+(* blocks 1..2 synced, fresh WAL (#ENDHEIGHT 0), the node writes proposal and prevote of height 3
+   (synced) and 4 bytes of a further record, dies; restart at height 3 *)
+Definition ex_sync_s0 : st := open_wal crc32c_be (init 0 0) (ex_mk 0).
+Definition ex_sync_ops : list dop := [DWriteSync ex_r1; DWriteSync ex_r2; DWrite ex_r1].
+
+Example C15_replay_after_sync_nonvacuous :
+  SInv crc32c_be vtrue ex_sync_s0 [] [ex_mk 0] [] /\ buf ex_sync_s0 = [] /\
+  synced ex_sync_s0 = len (head ex_sync_s0) /\ Idx ex_sync_s0 /\
+  MonoNZ ex_eh (([] ++ [ex_mk 0]) ++ [ex_mk 2]) /\ ~ In 2 (markers ex_eh [ex_mk 0]) /\
+  Forall (wop vtrue ex_eh) ex_sync_ops /\
+  jrun [] [] ex_sync_ops = ([ex_r1; ex_r2], [ex_r1]) /\
+  let s2 := fold_left (dstep crc32c_be vtrue) ex_sync_ops
+              (mark_synced crc32c_be vtrue ex_eh true true ex_sync_s0 2 (ex_mk 2)) in
+  snd (restart crc32c_be vtrue ex_eh true s2 4 3 true (ex_mk 0) (ex_mk 0)) = (0%N, true, [ex_r1; ex_r2]) /\
+  snd (restart crc32c_be vtrue ex_eh true s2 0 3 true (ex_mk 0) (ex_mk 0)) = (0%N, false, [ex_r1; ex_r2]) /\
+  snd (restart crc32c_be vtrue ex_eh true s2 1000 3 true (ex_mk 0) (ex_mk 0)) = (0%N, false, [ex_r1; ex_r2; ex_r1]).
+Proof.
+  split; [|split; [reflexivity|split; [vm_compute; reflexivity|split; [|split; [|split; [|split;
+    [|split; [reflexivity|vm_compute; repeat split; reflexivity]]]]]]]].
+  - constructor; [reflexivity|vm_compute; reflexivity|].
+    repeat constructor; unfold len, wal_max_msg_size_bytes; cbn; lia.
+  - unfold Idx, base. vm_compute. discriminate.
+  - apply sorted_MonoNZ. vm_compute. repeat constructor.
+  - vm_compute. intros [H|[]]. discriminate.
+  - repeat constructor; unfold len, wal_max_msg_size_bytes; cbn; lia.
+Qed.
+
+(* REGRESSION WITNESS (F88), the transcription of the code BEFORE the repair ([mark_synced false]
+   writes nothing): the same life — the proposal and the prevote of height 3 are synced and a
+   reader returns them, but the restart ends with "cannot replay height 3. WAL does not contain
+   #ENDHEIGHT for 2" (status 1) and nothing is replayed: the conclusion of C15_replay_after_sync
+   fails for the unrepaired start-up. *)
+Example C15_replay_after_sync_refuted :
+  exists (s : st) (ops : list dop) (keep : Z),
+    Forall (wop vtrue ex_eh) ops /\
+    let s2 := fold_left (dstep crc32c_be vtrue) ops
+                (mark_synced crc32c_be vtrue ex_eh true false s 2 (ex_mk 2)) in
+    fst (jrun [] [] ops) = [ex_r1; ex_r2] /\
+    read_all crc32c_be vtrue true (crash s2 keep) = ([ex_mk 0; ex_r1; ex_r2], TEof) /\
+    snd (restart crc32c_be vtrue ex_eh true s2 keep 3 true (ex_mk 0) (ex_mk 0)) = (1%N, false, []).
+Proof.
+  exists ex_sync_s0, ex_sync_ops, 0. split.
+  - repeat constructor; unfold len, wal_max_msg_size_bytes; cbn; lia.
+  - vm_compute. repeat split; reflexivity.
+Qed.
